@@ -255,10 +255,15 @@ def gen_c13b(rng, n):
                 og['omega'] = om
             elif rng.random() < 0.3:
                 of['integer_quota'] = og['integer_quota'] = True
-            A, B = run2(blt, of, None, blt, og, None)
+            bltg, ogx = blt, og
+            if i % 3 == 2:
+                # the guarded configuration comes from the ballot file's [droop ...] line instead of the caller
+                bltg = drive.mkblt(opts=['%s=%s' % (k, str(v).lower() if isinstance(v, bool) else v) for k, v in og.items() if k != 'rule'], **pr)
+                ogx = dict(rule=rule)
+            A, B = run2(blt, of, None, bltg, ogx, None)
             if A['outcome'] == 'reject' or B['outcome'] == 'reject':
                 continue
-            out.append((mkpair('C13b', A, B, obs=text_obs(A, B)), (blt, blt, [of, og], None)))
+            out.append((mkpair('C13b', A, B, obs=text_obs(A, B)), (blt, bltg, [of, ogx], None)))
     return out
 
 
